@@ -1,10 +1,14 @@
 import Crv.Proofs.Repo
+import Crv.Proofs.Skeleton
 import Crv.Generated.Config
 /-!
 C16 — the signature policy means the same at provisioning, first load, refresh and after restart.
 One predicate `acceptable mode doc candidates` decides every intake path of the repository model:
 `verify` needs a candidate signer that verifies; `verify_log` and `none` accept every parseable CRL.
-The flags `firstLoadHonoursMode` / `refreshHonoursMode` are regenerated from loadCRL / updateCrlEntry.
+The flags `firstLoadHonoursMode` / `refreshHonoursMode` are regenerated from loadCRL / updateCrlEntry,
+`persistedNeedsSignerUnderVerify` from addNewEmptyEntry.
+Histories may restart the process with another signature mode (`Op.reconfigure`); "the mode" of a theorem over
+histories is the current one, `(run cfg ops).cfg.sigMode`, or the one configured at the intake (`Accept.mode`).
 -/
 namespace Crv.Props.C16
 open Crv Crv.Repo Crv.Generated
@@ -81,21 +85,101 @@ theorem parseable_keeps_refreshing (s : State) (loc : Loc) (e : Entry) (nc : Opt
   refine ⟨d, hsv, ?_⟩
   rcases hm with hm | hm <;> rw [hm] <;> rfl
 
-/-- Under `verify` a CRL that fails verification is never in force — in no state reachable by any history of
-provisioning, first loads, refreshes, restarts and shutdowns: whatever is in force was verified against the
-candidates of the intake that installed it. -/
-theorem verify_in_force_was_verified (cfg : Cfg) (ops : List Op) (hm : cfg.sigMode = .verify) (loc : Loc) (d : DocA)
+/-- **Under `verify` a CRL that fails verification is never in force — neither now nor after a restart**, for histories
+that may change the signature mode across restarts (`Op.reconfigure`): whatever is in force while the process runs under
+`verify` was verified against the candidates presented at some intake — possibly in an earlier run under another mode, by
+a load, a refresh or a signature-certificate retry that presented the signer.
+
+Hypothesis `ProvisionsSafe`: every provisioning step of the history happens under fetch mode `actively` (the default) or
+while the mode is not `verify`. Without it the statement is FALSE of the model (and of the code it follows), see
+`background_provision_counterexample` below. -/
+theorem verify_in_force_was_verified (cfg : Cfg) (ops : List Op) (hsafe : ProvisionsSafe cfg ops)
+    (hm : (run cfg ops).cfg.sigMode = .verify) (loc : Loc) (d : DocA)
     (hf : inForce (run cfg ops) loc d) :
     ∃ a ∈ (run cfg ops).log, a.loc = loc ∧ a.doc = d ∧ verifies d a.cands = true := by
+  obtain ⟨e, hmem, hl, _, hdoc⟩ := hf
+  have he := (inv_run_safe cfg ops hsafe).1 (loc, e) hmem
+  exact he.store.verified rfl d hdoc (he.verifySigner hm hl)
+
+/-- The two simple sufficient conditions: fetch mode `actively` (the default), or a history without provisioning steps. -/
+theorem verify_in_force_was_verified_actively (cfg : Cfg) (ops : List Op) (hfetch : cfg.fetch = .actively)
+    (hm : (run cfg ops).cfg.sigMode = .verify) (loc : Loc) (d : DocA) (hf : inForce (run cfg ops) loc d) :
+    ∃ a ∈ (run cfg ops).log, a.loc = loc ∧ a.doc = d ∧ verifies d a.cands = true :=
+  verify_in_force_was_verified cfg ops (provisionsSafe_of_actively cfg ops hfetch) hm loc d hf
+
+theorem verify_in_force_was_verified_no_provision (cfg : Cfg) (ops : List Op) (hnp : ∀ op ∈ ops, op.isProvision = false)
+    (hm : (run cfg ops).cfg.sigMode = .verify) (loc : Loc) (d : DocA) (hf : inForce (run cfg ops) loc d) :
+    ∃ a ∈ (run cfg ops).log, a.loc = loc ∧ a.doc = d ∧ verifies d a.cands = true :=
+  verify_in_force_was_verified cfg ops (provisionsSafe_of_no_provision cfg ops hnp) hm loc d hf
+
+/-- The statement of the previous model (mode never changes: histories without `reconfigure`, initial mode `verify`)
+still holds for all such histories, with no further hypothesis: under a constant `verify` nothing unverified is ever stored. -/
+theorem verify_in_force_was_verified_constant_mode (cfg : Cfg) (ops : List Op) (hm : cfg.sigMode = .verify)
+    (hnr : ∀ op ∈ ops, ∀ m', op ≠ .reconfigure m') (loc : Loc) (d : DocA) (hf : inForce (run cfg ops) loc d) :
+    ∃ a ∈ (run cfg ops).log, a.loc = loc ∧ a.doc = d ∧ verifies d a.cands = true := by
   obtain ⟨e, hmem, _, _, hdoc⟩ := hf
-  obtain ⟨a, ha, h1, h2, h3⟩ := ((inv_run cfg ops).1 (loc, e) hmem).1 d hdoc
-  rw [cfg_run, hm] at h3
+  obtain ⟨a, ha, h1, h2, h3⟩ := ((inv_run cfg ops).1 (loc, e) hmem).store.accepted d hdoc
+  obtain ⟨pre, suf, heq, hmode⟩ := log_mode_at_intake cfg ops a ha
+  have hpre : (run cfg pre).cfg.sigMode = .verify := by
+    rw [cfg_run_of_no_reconfigure cfg pre (fun op hop => hnr op (by rw [heq]; exact List.mem_append_left _ hop))]
+    exact hm
+  rw [← hmode, hpre] at h3
   exact ⟨a, ha, h1, h2, h3⟩
 
-/-- The same for what restart finds on disk: a persisted store that holds a document holds an accepted one. -/
+/-- What holds for ALL histories (no hypothesis on provisioning): whatever is in force under `verify` carries a stored
+signer certificate, and that signer verified *some* list of this location against presented candidates (not necessarily
+the list in force — that is the defect of `background_provision_counterexample`). -/
+theorem verify_in_force_has_seen_signer (cfg : Cfg) (ops : List Op)
+    (hm : (run cfg ops).cfg.sigMode = .verify) (loc : Loc) (d : DocA) (hf : inForce (run cfg ops) loc d) :
+    ∃ e sg, (loc, e) ∈ (run cfg ops).entries ∧ e.store.doc = some d ∧ e.store.signer = some sg ∧
+      ∃ a ∈ (run cfg ops).log, a.loc = loc ∧ a.doc.signer = sg ∧ verifies a.doc a.cands = true := by
+  obtain ⟨e, hmem, hl, _, hdoc⟩ := hf
+  have he := (inv_run cfg ops).1 (loc, e) hmem
+  have hs := he.verifySigner hm hl
+  cases hsg : e.store.signer with
+  | none => rw [hsg] at hs; cases hs
+  | some sg => exact ⟨e, sg, hmem, hdoc, hsg, he.store.signer sg hsg⟩
+
+/-- What restart finds on disk: a persisted store that holds a document holds one that was accepted — under the mode
+configured at the time of its intake (`Accepted` now reads the mode from the log record; `accepted_at_intake` spells it
+out as the mode of the run after a prefix of the history). All histories. -/
 theorem persisted_was_accepted (cfg : Cfg) (ops : List Op) (loc : Loc) (st : Store) (d : DocA)
     (hmem : (loc, st) ∈ (run cfg ops).disk) (hdoc : st.doc = some d) : Accepted (run cfg ops) loc d :=
-  (inv_run cfg ops).2 (loc, st) hmem d hdoc
+  ((inv_run cfg ops).2 (loc, st) hmem).accepted d hdoc
+
+theorem persisted_was_accepted_at_intake (cfg : Cfg) (ops : List Op) (loc : Loc) (st : Store) (d : DocA)
+    (hmem : (loc, st) ∈ (run cfg ops).disk) (hdoc : st.doc = some d) :
+    ∃ pre suf cands, ops = pre ++ suf ∧ acceptable (run cfg pre).cfg.sigMode d cands = true :=
+  accepted_at_intake cfg ops loc d (persisted_was_accepted cfg ops loc st d hmem hdoc)
+
+/-- A persisted store that carries a signer certificate holds a verified list (safe provisioning). This is what makes
+`addNewEmptyEntry`'s test "signer certificate stored" a sound criterion after a restart under `verify`. -/
+theorem persisted_with_signer_was_verified (cfg : Cfg) (ops : List Op) (hsafe : ProvisionsSafe cfg ops)
+    (loc : Loc) (st : Store) (d : DocA) (hmem : (loc, st) ∈ (run cfg ops).disk) (hdoc : st.doc = some d)
+    (hs : st.signer.isSome = true) :
+    ∃ a ∈ (run cfg ops).log, a.loc = loc ∧ a.doc = d ∧ verifies d a.cands = true :=
+  ((inv_run_safe cfg ops hsafe).2 (loc, st) hmem).verified rfl d hdoc hs
+
+/-- The repaired `addNewEmptyEntry`: in any state whose mode is `verify` (e.g. after `reconfigure s .verify`), the entry opened
+for a location whose persisted store has no signer certificate is not loaded. -/
+theorem unverified_persisted_not_loaded_under_verify (s : State) (loc : Loc) (cands : List Signer)
+    (hm : s.cfg.sigMode = .verify) (hs : ∀ st, lookup s.disk loc = some st → st.signer = none) :
+    (newEntry s loc cands).loaded = false := by
+  unfold newEntry
+  by_cases hd : s.cfg.disk = true
+  · simp only [hd, ↓reduceIte]
+    cases hl : lookup s.disk loc with
+    | none => simp
+    | some st => simp [hs st hl, hm, persistedNeedsSignerUnderVerify]
+  · simp [hd]
+
+theorem unverified_persisted_not_loaded_after_reconfigure (s : State) (loc : Loc) (cands : List Signer)
+    (hs : ∀ st, lookup s.disk loc = some st → st.signer = none) :
+    (newEntry (reconfigure s .verify) loc cands).loaded = false :=
+  unverified_persisted_not_loaded_under_verify (reconfigure s .verify) loc cands rfl hs
+
+/-- The regenerated fact the two theorems above rest on (crlrepository.go:addNewEmptyEntry). -/
+theorem persisted_fact : persistedNeedsSignerUnderVerify = true := by decide
 
 -- Non-vacuity: unknown signer (9) under the three modes, first load then refresh.
 def hist (m : SigMode) : List Op :=
@@ -104,5 +188,85 @@ def hist (m : SigMode) : List Op :=
 example : isRevoked (run { sigMode := .verify } (hist .verify)) (run { sigMode := .verify } (hist .verify)).entries ⟨7, 11, none⟩ = .notRevoked := by decide
 example : isRevoked (run { sigMode := .verifyLog } (hist .verifyLog)) (run { sigMode := .verifyLog } (hist .verifyLog)).entries ⟨7, 11, none⟩ = .revoked := by decide
 example : isRevoked (run { sigMode := .none } (hist .none)) (run { sigMode := .none } (hist .none)).entries ⟨7, 11, none⟩ = .revoked := by decide
+
+/-! ### Restart with another mode -/
+
+/-- A list signed by an unknown signer (9) is taken in under `none` (it is on disk, no signer certificate), then the process is
+restarted under `verify` and a handshake arrives: the persisted list is not loaded, loading again fails verification —
+nothing is in force, the certificate it lists is not revoked. -/
+def unverifiedThenVerify : List Op :=
+  [.serve 1 (.doc ⟨7, [10], 9, 1⟩), .handshake ⟨7, 10, some 1⟩ [1], .reconfigure .verify, .handshake ⟨7, 10, some 1⟩ [1]]
+-- before the restart it is in force …
+example : inForce (run { sigMode := .none } (unverifiedThenVerify.take 2)) 1 ⟨7, [10], 9, 1⟩ := by decide
+-- … and it is still on disk afterwards, without signer certificate
+example : lookup (run { sigMode := .none } unverifiedThenVerify).disk 1 = some ⟨some ⟨7, [10], 9, 1⟩, true, none⟩ := by decide
+example : (run { sigMode := .none } unverifiedThenVerify).cfg.sigMode = .verify := by decide
+example : ¬ inForce (run { sigMode := .none } unverifiedThenVerify) 1 ⟨7, [10], 9, 1⟩ := by decide
+example : presentAndLoaded (run { sigMode := .none } unverifiedThenVerify) 1 = false := by decide
+example : isRevoked (run { sigMode := .none } unverifiedThenVerify) (run { sigMode := .none } unverifiedThenVerify).entries
+    ⟨7, 10, some 1⟩ = .notRevoked := by decide
+
+/-- Contrast: under `verify_log` a handshake presented the signer (9) before the restart; its certificate was stored with the
+list, so after the restart under `verify` the list is still in force. -/
+def verifiedThenVerify : List Op :=
+  [.serve 1 (.doc ⟨7, [10], 9, 1⟩), .handshake ⟨7, 10, some 1⟩ [9], .reconfigure .verify, .handshake ⟨7, 10, some 1⟩ [1]]
+example : (run { sigMode := .verifyLog } verifiedThenVerify).cfg.sigMode = .verify := by decide
+example : inForce (run { sigMode := .verifyLog } verifiedThenVerify) 1 ⟨7, [10], 9, 1⟩ := by decide
+example : isRevoked (run { sigMode := .verifyLog } verifiedThenVerify) (run { sigMode := .verifyLog } verifiedThenVerify).entries
+    ⟨7, 10, some 1⟩ = .revoked := by decide
+
+/-- Contrast, through the signature-certificate retry: under `verify_log` the list is installed unverified (candidates [1]),
+the next refresh cannot verify it either (failure flag), a later handshake presents the signer (9): the retry stores its
+certificate (ghost: the verification is logged). After the restart under `verify` the list is in force, and it was verified. -/
+def retryThenVerify : List Op :=
+  [.serve 1 (.doc ⟨7, [10], 9, 1⟩), .handshake ⟨7, 10, some 1⟩ [1], .tick [1], .handshake ⟨7, 10, some 1⟩ [9],
+   .reconfigure .verify, .handshake ⟨7, 10, some 1⟩ [1]]
+example : inForce (run { sigMode := .verifyLog } retryThenVerify) 1 ⟨7, [10], 9, 1⟩ := by decide
+example : ∃ a ∈ (run { sigMode := .verifyLog } retryThenVerify).log, a.loc = 1 ∧ a.doc = ⟨7, [10], 9, 1⟩ ∧
+    verifies ⟨7, [10], 9, 1⟩ a.cands = true := by decide
+-- the same history without the handshake that presented the signer: nothing in force after the restart
+example : ¬ inForce (run { sigMode := .verifyLog } [.serve 1 (.doc ⟨7, [10], 9, 1⟩), .handshake ⟨7, 10, some 1⟩ [1], .tick [1],
+    .reconfigure .verify, .handshake ⟨7, 10, some 1⟩ [1]]) 1 ⟨7, [10], 9, 1⟩ := by decide
+
+/-! ### FOUND FALSE without `ProvisionsSafe`: provisioning under fetch mode `background` and `verify` -/
+
+/-- The history: (1) under `none`, fetch mode `background`, a list signed by the unknown signer 9 is taken in (handshake adds the
+entry, the tick loads it) — on disk, no signer certificate. (2) Restart under `verify`. (3) The origin now serves a newer list
+signed by 5. Provisioning of location 1 with trusted signers [1]: `AddCRL` opens the entry over the persisted list — not loaded
+(repaired `addNewEmptyEntry`), no active load in background mode; `UpdateCRL` refreshes whatever the loaded flag, the new list
+fails verification: failure flag set, `LastUpdateSignature` = the NEW list, the store still holds the OLD unverified list.
+(4) A handshake presents signer 5: the retry (`tryUpdateSignatureCertFromChain`) verifies the NEW list and stores 5's certificate
+with the OLD store. (5) Restart (still `verify`), handshake: the persisted store has a signer certificate, so the old list —
+signed by 9, never verified by anything — is loaded and in force. -/
+def cexCfg : Cfg := { sigMode := .none, fetch := .background }
+def cexOps : List Op :=
+  [.serve 1 (.doc ⟨7, [10], 9, 1⟩), .handshake ⟨7, 10, some 1⟩ [1], .tick [1],
+   .reconfigure .verify,
+   .serve 1 (.doc ⟨7, [11], 5, 2⟩), .provision 1 [1],
+   .handshake ⟨7, 10, some 1⟩ [5],
+   .restart, .handshake ⟨7, 10, some 1⟩ [1]]
+
+theorem background_provision_counterexample :
+    (run cexCfg cexOps).cfg.sigMode = .verify ∧
+    inForce (run cexCfg cexOps) 1 ⟨7, [10], 9, 1⟩ ∧
+    isRevoked (run cexCfg cexOps) (run cexCfg cexOps).entries ⟨7, 10, some 1⟩ = .revoked ∧
+    ¬ ∃ a ∈ (run cexCfg cexOps).log, a.loc = 1 ∧ a.doc = ⟨7, [10], 9, 1⟩ ∧ verifies ⟨7, [10], 9, 1⟩ a.cands = true := by
+  decide
+
+/-- Hence the statement without the hypothesis on provisioning does not hold of the model. -/
+theorem verify_in_force_was_verified_needs_safe_provisioning :
+    ¬ ∀ (cfg : Cfg) (ops : List Op), (run cfg ops).cfg.sigMode = .verify → ∀ (loc : Loc) (d : DocA),
+      inForce (run cfg ops) loc d → ∃ a ∈ (run cfg ops).log, a.loc = loc ∧ a.doc = d ∧ verifies d a.cands = true := by
+  intro h
+  obtain ⟨h1, h2, _, h4⟩ := background_provision_counterexample
+  exact h4 (h cexCfg cexOps h1 1 _ h2)
+
+-- the counterexample history is indeed not `ProvisionsSafe`; the same history under fetch mode `actively` is harmless
+example : ¬ inForce (run { cexCfg with fetch := .actively } cexOps) 1 ⟨7, [10], 9, 1⟩ := by decide
+
+/-- The hand-written `Repo` model this property rests on was transcribed from exactly these sources: the fingerprints are
+recomputed from /repo on every run (tools/extract/skeleton.go), so any change to one of the functions breaks this obligation. -/
+theorem repo_sources_as_transcribed : Crv.Generated.skeletonRepo = Crv.Skeleton.expectedRepo :=
+  Crv.Skeleton.repo_sources_as_transcribed
 
 end Crv.Props.C16
